@@ -206,7 +206,7 @@ def run(tier, repo):
         if f.get("impl_trait_path") == "core::convert::TryFrom" and f.get("impl_self") == "&'static tls_ciphers::TlsCipherSuite" and f.get("name") == "try_from":
             b = strip(f["hir"])
             arg = f["inputs"][0]
-            inner = strip(b["recv"]) if b["k"] == "mcall" and b.get("path") == "core::option::Option::<T>::ok_or" else None
+            inner = strip(b["recv"]) if b["k"] == "mcall" and b.get("path") in ("core::option::Option::<T>::ok_or", "core::option::Option::<T>::ok_or_else") else None
             if arg == "u16":
                 rp.check(inner is not None and is_get_of(inner, is_param(f)), "LOOKUPS", "TryFrom<u16>", site(f), "TryFrom<u16> is not CIPHERS.get(&value).ok_or(..)")
             elif arg == "tls_handshake::TlsCipherSuiteID":
